@@ -15,7 +15,7 @@ SUBSETS = [frozenset(s) for r in range(4) for s in itertools.combinations(range(
 
 
 def bounds(tier):
-    return dict(universe="3 keys (shapes (), (2,), (1,2))", stub_children="all (required, output) key-set pairs x dictionary types", terms_depth=3 if tier == "thorough" else 2,
+    return dict(universe="3 keys (shapes (), (2,), (1,2))", stub_children="all (required, output) key-set pairs x dictionary types", terms="depth 2 over 3 keys" + ("; depth 3 over 1 key" if tier == "thorough" else ""),
                 tensor_dict_shapes="keys x values over 0-d..3-d shapes")
 
 
@@ -29,7 +29,10 @@ def cases(tier):
     cs.append(dict(name="leaf_transforms", fn="leaves", args={}, weight=2))
     for d in range(5):
         cs.append(dict(name=f"tensor_dict_{d}", fn="tdict", args=dict(ti=d), weight=1))
-    cs.append(dict(name="terms", fn="terms", args=dict(depth=3 if tier == "thorough" else 2), weight=6))
+    cs.append(dict(name="terms_depth2_3keys", fn="terms", args=dict(depth=2, nkeys=3), weight=6))
+    if tier == "thorough":
+        # depth 3 has ~5e8 terms over 3 keys: walked exhaustively over a 1-key universe (88k terms); nesting depth itself is covered by the inductive cases
+        cs.append(dict(name="terms_depth3_1key", fn="terms", args=dict(depth=3, nkeys=1), weight=20, max_paths=2000000, budget_s=3000))
     return cs
 
 
@@ -273,25 +276,26 @@ def case_tdict(sp, ti):
     return obs
 
 
-def case_terms(sp, depth):
+def case_terms(sp, depth, nkeys=3):
     """every term over the REAL transforms up to the given nesting depth: construction succeeds iff the key condition holds and the
     declared keys/type are delivered"""
-    keys = _keys()
+    keys = _keys()[:nkeys]
+    SUB = [x for x in SUBSETS if all(i < nkeys for i in x)]
     def gen(d):
         """returns (transform | None, required, output, type) built by free choices; None = construction rejected as it must be"""
         kind = choice(6 if d > 0 else 4, f"node_d{d}")
         if kind == 0:
-            sub = SUBSETS[choice(8, "init_keys")]
+            sub = SUB[choice(len(SUB), "init_keys")]
             return Init([keys[i] for i in sorted(sub)]), frozenset(), sub, Gradients
         if kind == 1:
-            sub = SUBSETS[choice(8, "diag_keys")]
+            sub = SUB[choice(len(SUB), "diag_keys")]
             return Diagonalize([keys[i] for i in sorted(sub)]), sub, sub, Jacobians
         if kind == 2:
-            sub = SUBSETS[choice(8, "acc_keys")]
+            sub = SUB[choice(len(SUB), "acc_keys")]
             return Accumulate([keys[i] for i in sorted(sub)]), sub, frozenset(), EmptyTensorDict
         if kind == 3:
-            sub = SUBSETS[choice(8, "sel_req")]
-            sel = SUBSETS[choice(8, "sel_keys")]
+            sub = SUB[choice(len(SUB), "sel_req")]
+            sel = SUB[choice(len(SUB), "sel_keys")]
             if not sel <= sub:
                 try:
                     Select([keys[i] for i in sel], [keys[i] for i in sub])
